@@ -581,18 +581,38 @@ Fixpoint assocS (k : bytes) (l : list (bytes * (N * N * list bytes))) : option (
   | (k', v) :: r => if beq k k' then Some v else assocS k r
   end.
 (** the head a streaming handler returns (its body is empty; nothing of it is stored in the response cache) *)
-Definition stream_fat (hs : list (bytes * bytes)) : fat :=
-  {| f_status := 200; f_headers := hs; f_body := []; f_spref := SP_NONE; f_compress := false |}.
-(** [extensions::stream_body] (after the repair 4cb2e2f: the range is cut at the end of the file; before, it
-    announced [end - start] of the request's range whatever the file holds): announced length and bytes *)
-Definition stream_body_future (clamp : bool) (content : bytes) (r : request) : option N * list bytes :=
+Definition stream_fat (st : N) (hs : list (bytes * bytes)) : fat :=
+  {| f_status := st; f_headers := hs; f_body := []; f_spref := SP_NONE; f_compress := false |}.
+(** the range [extensions::stream_body] looks at: [sanitize_request(req).ok().and_then(get_range)] *)
+Definition stream_body_range (r : request) : option (N * N) :=
+  match sanitize_range (header (B "range") r) with Ok (Some x) => Some x | _ => None end.
+(** [extensions::stream_body] answers 416 ([default_error_response], no future): a range whose start is not
+    inside the file (d675f8a) *)
+Definition stream_body_416 (content : bytes) (r : request) : bool :=
+  match stream_body_range r with Some (s, _) => N.of_nat (length content) <=? s | None => false end.
+(** [extensions::stream_body], the head of its streamed answer (d675f8a): a request with a range gets 206 and
+    [content-range: bytes start-(end-1)/file_len], [end] (exclusive) cut at the end of the file - the rules of
+    [apply_to_response], which [SendKind::send] skips for a stream; without a range 200 and no [content-range] *)
+Definition stream_body_head (content : bytes) (r : request) : N * list (bytes * bytes) :=
   let flen := N.of_nat (length content) in
-  let rg := match sanitize_range (header (B "range") r) with Ok (Some x) => Some x | _ => None end in
-  let start0 := match rg with Some (s, _) => s | None => 0 end in
+  match stream_body_range r with
+  | Some (s, e0) =>
+      let e := N.min e0 flen in
+      (206, [(B "content-range", B "bytes " ++ dec s ++ B "-" ++ dec (e - 1) ++ B "/" ++ dec flen)])
+  | None => (200, [])
+  end.
+(** [extensions::stream_body]: announced length and bytes of its future; [None] = the 416 above.
+    [clamp = true] is the code as it is: since 4cb2e2f the range is cut at the end of the file (before, it
+    announced [end - start] of the request's range whatever the file holds), since d675f8a a start outside the
+    file is refused before ([clamp = false]: the code before both, kept for the refutation witness) *)
+Definition stream_body_future (clamp : bool) (content : bytes) (r : request) : option (option N * list bytes) :=
+  let flen := N.of_nat (length content) in
+  let rg := stream_body_range r in
+  if clamp && stream_body_416 content r then None else
+  let s := match rg with Some (s, _) => s | None => 0 end in
   let end0 := match rg with Some (_, e) => e | None => flen end in
   let e := if clamp then N.min end0 flen else end0 in
-  let s := if clamp then N.min start0 e else start0 in
-  (Some (e - s), [firstn (N.to_nat (N.min e flen - N.min s (N.min e flen))) (skipn (N.to_nat s) content)]).
+  Some (Some (e - s), [firstn (N.to_nat (N.min e flen - N.min s (N.min e flen))) (skipn (N.to_nat s) content)]).
 (** the future of the reply to [r], if its path is a streaming handler's *)
 Definition stream_future (clamp : bool) (streams : list (bytes * (N * N * list bytes))) (files : list (bytes * bytes))
     (r : request) : option (option N * list bytes) :=
@@ -601,7 +621,7 @@ Definition stream_future (clamp : bool) (streams : list (bytes * (N * N * list b
   | Some (kind, announced, chunks) =>
       if kind =? 0 then
         match assoc (rq_path r) files with
-        | Some content => Some (stream_body_future clamp content r)
+        | Some content => stream_body_future clamp content r
         | None => None
         end
       else if (kind =? 1) || (kind =? 3) then Some (None, chunks)
@@ -619,10 +639,14 @@ Definition compute_c08 (cfg : c8cfg) (hs : list N) (r : request) (ok : bool) : f
       (* a Prepare extension: it is run for every method *)
       if kind =? 0 then
         match assoc (rq_path r) (c8_files cfg) with
-        | Some _ => (stream_fat (with_client_cache 3 [(B "vary", B "range")]), hs, [])
+        | Some content =>
+            if stream_body_416 content r
+            then (err_fat 416 (Some (B "Range start after end of body")) SP_NONE, hs, [])
+            else let '(st, cr) := stream_body_head content r in
+                 (stream_fat st (with_client_cache 3 ((B "vary", B "range") :: cr)), hs, [])
         | None => (err_fat 404 None SP_NONE, hs, [])     (* [default_error_response]: not stored *)
         end
-      else (stream_fat (with_client_cache 3 ([(B "content-type", B "text/plain"); (B "x-tag", B "S")]
+      else (stream_fat 200 (with_client_cache 3 ([(B "content-type", B "text/plain"); (B "x-tag", B "S")]
                                              ++ (if kind =? 3 then [(s_content_length, dec announced)] else []))), hs, [])
   | None =>
   match find_handler_last (rq_path r) (cf_handlers (c8_base cfg)) O None with
